@@ -58,7 +58,7 @@ def Admissible (sched : Nat → Nat) : Prop := ∀ k, 1 ≤ sched k
 /-- `BufReader::fill_buf`: one `read` of at most `c` bytes on the underlying reader, only when nothing is buffered -/
 def fillBuf (c : Nat) (sched : Nat → Nat) (s : St) : St :=
   if s.buf.isEmpty then
-    let n := min (sched s.k) (min c s.src.length)
+    let n := min (sched s.k) c                       -- (`take` hands out fewer when fewer are available)
     { buf := s.src.take n, src := s.src.drop n, k := s.k + 1 }
   else s
 
